@@ -42,6 +42,11 @@ Parse(s) ==
           ELSE IF HasDupName(r.atoms) THEN [err |-> "dupName", atoms |-> <<>>]
           ELSE r
 
+\* Very long strings are outside what the specification interprets (TLC evaluates the scan
+\* recursively): their verdicts are left open, only the absence of runtime faults is checked.
+MaxPat == 300
+PParse(s) == IF Len(s) > MaxPat THEN [err |-> "outside", atoms |-> <<>>] ELSE Parse(s)
+
 \* ---- kinds and constraints.  I : rule -> class is the router's interceptor table.
 \* 0 literal < 1 interceptor < 2 regexp < 3 named
 KindOf(I, a) == IF a.k = "c" THEN 0 ELSE IF a.rule = "" THEN 3 ELSE IF a.rule \in DOMAIN I THEN 1 ELSE 2
